@@ -54,6 +54,7 @@
 #include <gmssl/sm2_z256.h>
 #include <gmssl/sm3.h>
 #include <gmssl/asn1.h>
+#include <gmssl/verif.h>
 
 /*
 SM2 parameters
@@ -93,7 +94,14 @@ int sm2_z256_rand_range(sm2_z256_t r, const sm2_z256_t range)
 {
 	unsigned int tries = 100;
 
-	do {
+	do
+	VERIF_LOOP_ASSIGNS(tries, VERIF_OBJ_UPTO((uint8_t *)r, 32), verif_rb_fail, verif_rb_calls, verif_rb_buf, verif_rb_len)
+	VERIF_LOOP_INVARIANT(tries <= 100)
+	VERIF_LOOP_INVARIANT(verif_rb_fail == VERIF_LOOP_ENTRY(verif_rb_fail))
+	VERIF_LOOP_INVARIANT(verif_rb_calls == VERIF_LOOP_ENTRY(verif_rb_calls) + (100 - tries))
+	VERIF_LOOP_INVARIANT(tries == 100 || (verif_rb_buf == (const void *)r && verif_rb_len == 32))
+	VERIF_LOOP_DECREASES(tries)
+	{
 		if (!tries) {
 			// caller call this function again if return zero
 			return 0;
